@@ -2,6 +2,7 @@ package swarm
 
 import (
 	"fmt"
+	"time"
 
 	"verifharness/fixture"
 )
@@ -198,4 +199,36 @@ func (r *Remote) isClosedByUs() bool {
 	r.mu.Lock()
 	defer r.mu.Unlock()
 	return r.closed
+}
+
+// LoopAlive probes the torrent's event loop at a cut: a GetStats issued now must be answered
+// by the next cut.  A loop that is stuck waiting for a peer that will never answer (or sending
+// into a mailbox nobody drains) is reported under prop with the given class.
+func (tr *Tor) LoopAlive(prop, cls string) bool {
+	if tr.Killed {
+		return true
+	}
+	sw := tr.Sw
+	done := make(chan struct{})
+	go func() {
+		tr.T.GetStats()
+		close(done)
+	}()
+	sw.Cut()
+	select {
+	case <-done:
+		sw.C.Count("loop_alive_probes", 1)
+		return true
+	default:
+	}
+	time.Sleep(time.Minute) // generous: nothing in a handler legitimately waits that long
+	sw.Cut()
+	select {
+	case <-done:
+		sw.C.Count("loop_alive_probes", 1)
+		return true
+	default:
+	}
+	sw.Viol(prop, "liveness", "torrent-loop-blocked "+cls, "the torrent's event loop does not answer GetStats one virtual minute after a quiescent cut: it is blocked inside a handler (every operation on the torrent now hangs)")
+	return false
 }
